@@ -73,6 +73,7 @@ class Folder:
     def __init__(self, model):
         self.m = model
         self.enums = {}
+        self.funcs = {}   # module-level functions, for table-building helpers that are one return expression
         self.env = {}  # module-qualified later; names are unique enough across this package
         order = ['ansi_param', 'ansi_format', 'ansi_parsing', 'ansi_string']
         for modname in order:
@@ -82,6 +83,8 @@ class Folder:
             for st in mod.tree.body:
                 if isinstance(st, ast.ClassDef) and any('Enum' in norm(b) for b in st.bases):
                     self._fold_enum(st)
+                elif isinstance(st, ast.FunctionDef):
+                    self.funcs[st.name] = st
                 elif isinstance(st, (ast.Assign, ast.AnnAssign)):
                     tgt = st.targets[0] if isinstance(st, ast.Assign) else st.target
                     if isinstance(tgt, ast.Name) and st.value is not None:
@@ -136,6 +139,7 @@ class Folder:
                 e.members[name] = Sym('?', [], v)
 
     _locals = None
+    _depth = 0
 
     def _elts(self, elts, local_enum):
         out = []
@@ -257,6 +261,11 @@ class Folder:
             raise Unfoldable(norm(n))
         if isinstance(n, ast.UnaryOp) and isinstance(n.op, ast.USub):
             return -self.fold(n.operand, local_enum)
+        if isinstance(n, ast.BinOp) and isinstance(n.op, (ast.Sub, ast.Mult)):
+            a, b = self.fold(n.left, local_enum), self.fold(n.right, local_enum)
+            if type(a) is int and type(b) is int:
+                return a - b if isinstance(n.op, ast.Sub) else a * b
+            raise Unfoldable(norm(n))
         if isinstance(n, ast.BinOp) and isinstance(n.op, ast.Add):
             a, b = self.fold(n.left, local_enum), self.fold(n.right, local_enum)
             if type(a) is type(b) and isinstance(a, (str, tuple, int, list)):
@@ -280,6 +289,33 @@ class Folder:
                 return Auto()
             if isinstance(f, ast.Attribute) and f.attr == 'auto' and not n.args:
                 return Auto()
+            if isinstance(f, ast.Name) and f.id in self.funcs:
+                # a module-level helper that is one `return <expr>` over its parameters (a table-building helper): evaluate the
+                # expression with the folded arguments bound
+                fd = self.funcs[f.id]
+                body = [b for b in fd.body if not (isinstance(b, ast.Expr) and isinstance(b.value, ast.Constant))]
+                a_ = fd.args
+                if len(body) == 1 and isinstance(body[0], ast.Return) and body[0].value is not None and not (a_.vararg or a_.kwarg or a_.kwonlyargs or a_.posonlyargs) \
+                        and not fd.decorator_list and not any(isinstance(x, ast.Starred) for x in n.args) and all(k.arg for k in n.keywords):
+                    names = [x.arg for x in a_.args]
+                    loc = {}
+                    dflt = dict(zip(names[len(names) - len(a_.defaults):], a_.defaults))
+                    if len(n.args) <= len(names):
+                        for nm, av in zip(names, n.args):
+                            loc[nm] = self.fold(av, local_enum)
+                        for k in n.keywords:
+                            if k.arg in names and k.arg not in loc:
+                                loc[k.arg] = self.fold(k.value, local_enum)
+                        for nm in names:
+                            if nm not in loc and nm in dflt:
+                                loc[nm] = self.fold(dflt[nm], local_enum)
+                        if set(loc) == set(names) and self._depth < 4:
+                            self._depth += 1
+                            try:
+                                return self._with(loc, body[0].value, local_enum)
+                            finally:
+                                self._depth -= 1
+                raise Unfoldable(norm(n))
             if isinstance(f, ast.Attribute) and f.attr == 'format' and not n.keywords:
                 base = self.fold(f.value, local_enum)
                 args = [self.fold(a, local_enum) for a in n.args]
